@@ -11,6 +11,7 @@ import Hive.Ledger
 import Hive.MonitorTimed
 import Hive.Shift
 import Hive.Cycle
+import Hive.Dispatch
 
 open Lean Hive
 
@@ -215,6 +216,72 @@ def handleCosim (j : Json) : Except String Json := do
       [s!"C15/runner-interval| LocalSimulationRunner.run ended at {final}; {m} steps from {start} end at {start + (m : Int) * (dt : Int)}"])
   pure (Json.mkObj [("diff", strs []), ("mon", strs mon)])
 
+deriving instance FromJson for Dispatch.DCfg
+
+structure DispatchCall where
+  fleet : Option FleetId
+  implV : List Nat
+  implR : List Nat
+  pairs : List (Nat × Nat)
+  potV : List (Nat × Int)
+  potR : List (Nat × Int)
+  optCost : Int
+  deriving FromJson
+
+/-- C12 function-level record: one run of the trip dispatcher, every assignment problem observed -/
+def handleDispatch (j : Json) : Except String Json := do
+  let sim : Sim ← getField j "sim"
+  let cfg : Dispatch.DCfg ← getField j "cfg"
+  let ranges : List (VehicleId × Option Rat) ← getField j "ranges"
+  let calls : List DispatchCall ← getField j "calls"
+  let costTbl : List (Nat × Nat × Int) ← getField j "cost"
+  let range (v : VehicleId) : Option Rat := (ranges.find? (·.1 == v)).bind (·.2)
+  let costFn (v r : Nat) : Int := match costTbl.find? (fun t => t.1 == v && t.2.1 == r) with
+    | some t => t.2.2
+    | none => 0
+  let srt (l : List Nat) : List Nat := sortBy (fun a b => decide (a ≤ b)) l
+  let mut diffs : List String := []
+  let mut mon : List String := []
+  let mut usedV : List VehicleId := []
+  let mut usedR : List RequestId := []
+  for c in calls do
+    let V := Dispatch.vehiclesOf cfg range usedV c.fleet sim
+    let R := Dispatch.requestsOf usedR c.fleet sim
+    if srt V != c.implV then
+      diffs := diffs ++ [s!"fleet {repr c.fleet}: vehicles offered to the assignment: model={srt V} impl={c.implV}"]
+    if srt R != c.implR then
+      diffs := diffs ++ [s!"fleet {repr c.fleet}: requests offered to the assignment: model={srt R} impl={c.implR}"]
+    let a : Dispatch.Answer := { fleet := c.fleet, pairs := c.pairs, potV := c.potV, potR := c.potR }
+    if !(Dispatch.checkFleet cfg range costFn sim usedV usedR a) then
+      let okShape := if V.length ≤ R.length then Dispatch.completeOk V R c.pairs else Dispatch.completeOk R V (Dispatch.swap c.pairs)
+      let total := (c.pairs.map fun p => costFn p.1 p.2).sum
+      if !okShape then
+        mon := mon ++ [s!"C12/pairing| fleet {repr c.fleet}: {c.pairs} is not a one-to-one pairing of min(#vehicles, #requests) = {min V.length R.length} eligible vehicles {srt V} with waiting requests {srt R}"]
+      else
+        mon := mon ++ [s!"C12/not-minimal| fleet {repr c.fleet}: pairing {c.pairs} has total grid distance {total}; the minimum over pairings of that size is {c.optCost} (no dual certificate for the implementation's answer)"]
+    for p in c.pairs do
+      match sim.vehicle? p.1, sim.request? p.2 with
+      | some veh, some req =>
+        if !veh.driver.available then
+          mon := mon ++ [s!"C20/dispatch-off-shift| the dispatcher assigned request {p.2} to vehicle {p.1} whose driver is off shift"]
+        if !req.members.isEmpty && !(req.members.any fun f => veh.members.contains f) then
+          if veh.members.isEmpty then
+            mon := mon ++ [s!"C10/dispatcher-public-vehicle| the dispatcher paired vehicle {p.1}, which belongs to no fleet, with request {p.2} of fleets {req.members}"]
+          else
+            mon := mon ++ [s!"C10/dispatcher-other-fleet| the dispatcher paired vehicle {p.1} (fleets {veh.members}) with request {p.2} of fleets {req.members}"]
+        if req.dispVeh.isSome then
+          mon := mon ++ [s!"C17/dispatcher-reassigns| the dispatcher paired vehicle {p.1} with request {p.2}, which already has vehicle {repr req.dispVeh} on its way"]
+      | _, _ => mon := mon ++ [s!"C12/pairing| pair {p} names a vehicle or request that does not exist"]
+    usedV := usedV ++ c.pairs.map (·.1)
+    usedR := usedR ++ c.pairs.map (·.2)
+  let allReqs := calls.flatMap fun c => c.pairs.map (·.2)
+  if allReqs.eraseDups.length != allReqs.length then
+    mon := mon ++ [s!"C17/dispatcher-two-vehicles| one dispatcher run assigned two vehicles to one request: {calls.flatMap (·.pairs)}"]
+  let allVehs := calls.flatMap fun c => c.pairs.map (·.1)
+  if allVehs.eraseDups.length != allVehs.length then
+    mon := mon ++ [s!"C12/vehicle-twice| one dispatcher run paired one vehicle with two requests: {calls.flatMap (·.pairs)}"]
+  pure (Json.mkObj [("diff", strs (diffs.take 12)), ("mon", strs (mon.take 12))])
+
 /-- function-level record: one mechatronics operation -/
 def handleMech (j : Json) : Except String Json := do
   let m : Mech ← getField j "mech"
@@ -329,6 +396,10 @@ def handle (st : DState) (line : String) : DState × Json :=
       | .error e => (st, withId (Json.mkObj [("error", Json.str e)]))
     | "cosim" =>
       match handleCosim j with
+      | .ok r => (st, withId r)
+      | .error e => (st, withId (Json.mkObj [("error", Json.str e)]))
+    | "dispatch" =>
+      match handleDispatch j with
       | .ok r => (st, withId r)
       | .error e => (st, withId (Json.mkObj [("error", Json.str e)]))
     | "mech" =>
